@@ -244,12 +244,13 @@ def main(repo=None, verbose=False):
         json.dump(CASES, f)
     env = dict(os.environ)
     env['PYTHONPATH'] = repo
+    LIMIT = int(os.environ.get('PYVC_DIFFTEST_TIMEOUT', '240'))
     try:
         # subprocess.run kills the child when the timeout expires: a concrete program that never returns on edited code
         # must not outlive the check (an orphan would burn a core for ever and slow every later solver call)
-        p = subprocess.run([PY_NATIVE, '-c', NATIVE_DRIVER, path], capture_output=True, text=True, env=env, cwd=repo, timeout=240)
+        p = subprocess.run([PY_NATIVE, '-c', NATIVE_DRIVER, path], capture_output=True, text=True, env=env, cwd=repo, timeout=LIMIT)
     except subprocess.TimeoutExpired:
-        print('difftest: CPython did not finish the %d concrete programs within 240 s (a call that does not return)' % len(CASES))
+        print('difftest: CPython did not finish the %d concrete programs within %d s (a call that does not return)' % (len(CASES), LIMIT))
         return 1
     finally:
         os.unlink(path)
